@@ -423,6 +423,23 @@ def flatChain (adj : Nat → List (Nat × Nat)) (srcs : List (Option Int)) (hops
   | h + 1 => (List.range h).foldl (fun rows _ => flatHop adj (lastVal 1) rows)
       (flatHop adj (lastVal 0) (srcs.map fun v => [[v]]))
 
+/-! ### the h-hop pattern from query text with one edge-type label (stream op `qcase`)
+
+All edges carry the same stored type, so whether a hop matches is one boolean per hop:
+`firstOk` for the first hop, `laterOk` for the others.  Flat execution (`ExpandOperator`) and the
+first factorized hop (`FactorizedExpandOperator::get_neighbors`) compare with
+`eq_ignore_ascii_case`; `FactorizedExpandChain::expand_deepest_level` compares with `==`. -/
+
+def hopPairs (edges : List (Nat × Nat)) (ok : Bool) (rows : List (Nat × Nat)) : List (Nat × Nat) :=
+  rows.flatMap fun r => if ok then edges.filterMap (fun e => if e.1 == r.2 then some (r.1, e.2) else none) else []
+
+/-- `(v0, vh)` for every path of `hops` edges -/
+def qcaseRows (n : Nat) (edges : List (Nat × Nat)) (firstOk laterOk : Bool) (hops : Nat) : List (Nat × Nat) :=
+  match hops with
+  | 0 => []
+  | h + 1 => (List.range h).foldl (fun rows _ => hopPairs edges laterOk rows)
+      (hopPairs edges firstOk ((List.range n).map fun i => (i, i)))
+
 /-! ### well-formed chunks (what the constructors build) -/
 
 def wfChain : Nat → List Level → Prop
